@@ -2,7 +2,7 @@
     Statements only; proofs in Blocks.v, Handler.v. *)
 From Coq Require Import List Arith Lia PeanoNat.
 Import ListNotations.
-From PGV Require Import NdIndex Blocks Layouts Handler.
+From PGV Require Import NdIndex Blocks Layouts Handler HandlerBuf.
 
 (** the blocks start at 0, end at n, and are in rank order *)
 Theorem c02_starts_0 : forall n p, bstart n p 0 = 0.
@@ -66,6 +66,19 @@ Theorem c02_bufsize_pair : forall N nprocs coords layouts l1 l2,
   pair_bufsize N nprocs coords l1 l2 <= handler_bufsize N nprocs coords layouts.
 Proof. exact bufsize_ge_pair. Qed.
 Print Assumptions c02_bufsize_pair.
+
+(** the padded p-fold send buffer of a compatible pair is at least as large as the block of the layout it is
+    filled from, on every rank (so bufferSize covers the block of every layout that occurs as the later member of
+    an enumerated pair, besides the first layout) *)
+Theorem c02_pair_bufsize_ge_size : forall N nprocs coords l1 l2 : list nat,
+  length l2 = length l1 -> NoDup l1 -> NoDup l2 ->
+  (forall a, a < length l1 -> In (nth a l2 0) l1) ->
+  length nprocs <= length l1 ->
+  (forall a, 0 < np_at nprocs a) -> (forall a, rk_at coords a < np_at nprocs a) ->
+  compatible nprocs l1 l2 = true ->
+  l_size N nprocs l1 coords <= pair_bufsize N nprocs coords l1 l2.
+Proof. exact pair_bufsize_ge_size. Qed.
+Print Assumptions c02_pair_bufsize_ge_size.
 
 (** non-vacuity: 7 points on 3 processes *)
 Example c02_example : starts_table 7 3 = [0; 2; 4; 7] /\ bmax 7 3 = 3 /\ owner 7 3 4 = 2
